@@ -105,6 +105,95 @@ def rule_none_defaults(eng, rep, rule="C06-3.no-None-default-can-be-star-expande
         rep.ok(rule, "package", "every call that reaches a star-expanded argument tuple supplies it explicitly (declared None defaults are never taken)")
 
 
+def rule_subproblem_over_the_box(eng, rep, rule="C06-6.regularised-subproblem-is-solved-over-the-feasible-set"):
+    """Every ctrsbox_sfista call must be handed the feasible set: the solver's projection list (which ends with the bound box, C09-2) or a list that
+    contains a box projector (a callable whose body is pbox(...)) -- on every reaching definition of the argument.  An empty or box-less list solves the
+    regularised sub-problem over the trust region only and the step leaves the bounds."""
+    sf = eng.fn("trust_region.ctrsbox_sfista")
+    pname = "projections" if "projections" in sf.all_params else sf.posparams[3]
+    n = 0
+
+    def is_box_callable(fi, cfg, at, e, depth=2):
+        if isinstance(e, ast.Lambda):
+            return isinstance(e.body, ast.Call) and any(t.fid == "util.pbox" for t in (eng.res.calls[id(e.body)].targets if id(e.body) in eng.res.calls else []))
+        if isinstance(e, ast.Name) and depth > 0:
+            try:
+                defs = cfg.defs_reaching(at, e.id)
+            except Exception:
+                return False
+            if not defs:
+                return False
+            for dn in defs:
+                st = cfg.ast_of(dn)
+                if isinstance(st, ast.Assign) and len(st.targets) == 1:
+                    if not is_box_callable(fi, cfg, st, st.value, depth - 1):
+                        return False
+                elif isinstance(st, ast.FunctionDef):
+                    body = [x for x in st.body if not (isinstance(x, ast.Expr) and isinstance(x.value, ast.Constant))]
+                    if not (len(body) == 1 and isinstance(body[0], ast.Return) and isinstance(body[0].value, ast.Call) and "pbox" in ekey(body[0].value.func)):
+                        return False
+                else:
+                    return False
+            return True
+        if isinstance(e, ast.Call) and id(e) in eng.res.calls and eng.res.calls[id(e)].kind == "CTOR":
+            # a small callable class: its __call__ returns pbox(...)
+            for t in eng.res.calls[id(e)].targets:
+                cls = eng.prog.classes.get(t.cls)
+                call = cls.methods.get("__call__") if cls else None
+                if call is not None and any(isinstance(r, ast.Return) and isinstance(r.value, ast.Call) and "pbox" in ekey(r.value.func) for r in eng.prog.own_nodes(call)):
+                    return True
+        return False
+
+    def feasible_set(fi, cfg, at, e, depth=3):
+        """True / False / None(unknown)"""
+        if isinstance(e, ast.Attribute) and e.attr == "projections":
+            return True
+        if isinstance(e, (ast.List, ast.Tuple)):
+            return any(is_box_callable(fi, cfg, at, x) for x in e.elts)
+        if isinstance(e, ast.Name) and depth > 0:
+            try:
+                defs = cfg.defs_reaching(at, e.id)
+            except Exception:
+                return None
+            res = []
+            for dn in defs:
+                st = cfg.ast_of(dn)
+                if isinstance(st, ast.Assign) and len(st.targets) == 1 and isinstance(st.targets[0], ast.Name):
+                    res.append(feasible_set(fi, cfg, st, st.value, depth - 1))
+                elif dn == cfg.entry:
+                    res.append(None)
+                else:
+                    res.append(None)
+            if any(r is False for r in res):
+                return False
+            return True if res and all(r is True for r in res) else None
+        if isinstance(e, ast.Call) and isinstance(e.func, ast.Name) and e.func.id == "list" and e.args:
+            return feasible_set(fi, cfg, at, e.args[0], depth - 1)
+        return None
+
+    for ci in eng.calls_to(sf.fid):
+        fi = ci.caller
+        if fi.fid.startswith("trust_region."):
+            continue
+        cfg = eng.cfg(fi)
+        b = bind_call(ci.node, sf, False)
+        e = b.params.get(pname)
+        n += 1
+        site = eng.where(fi, ci.node)
+        if e is None or isinstance(e, tuple):
+            rep.bad(rule, site, "%s|no-feasible-set" % fi.fid, "ctrsbox_sfista is called without a projection list")
+            continue
+        v = feasible_set(fi, cfg, ci.node, e)
+        if v is True:
+            rep.ok(rule, site, "the sub-problem is solved over `%s`, which contains the bound box on every path" % short(e, 40))
+        elif v is False:
+            rep.bad(rule, site, "%s|feasible-set-without-box|%s" % (fi.fid, short(e, 20)),
+                    "the projector list `%s` handed to ctrsbox_sfista can be empty / lack the box projector on some path: the regularised step is then computed over the trust region only and ignores the bounds" % short(e, 40))
+        else:
+            rep.unknown(rule, site, "cannot tell what the projector list `%s` contains" % short(e, 40))
+    rep.require_count(rule, "ctrsbox_sfista call sites outside trust_region.py", n, 2)
+
+
 def run(eng, rep):
     rep.explain("C06 (pass-through and frame clauses only): callable/tuple roles from solve's parameters are propagated by the 0-CFA atom analysis; every call of "
                 "role h/prox_uh/objfun must star-expand exactly the tuple of its own role; no user tuple is star-expanded into a fixed-arity internal callee (T10); "
@@ -114,5 +203,6 @@ def run(eng, rep):
     rule_pass_through(eng, rep)
     rule_no_star_into_fixed_arity(eng, rep)
     rule_none_defaults(eng, rep)
+    rule_subproblem_over_the_box(eng, rep)
     n = rule_frames(eng, rep, kinds=("dykstra-frames", "callback-frame", "arith"), rule_prefix="C06-4", exact_rule=None)
     rep.require_count("C06-4.frame-agreement", "dykstra/callback/arithmetic sites analysed over all configurations", n, 60)
